@@ -634,3 +634,71 @@ func checkReentrance(c *Ctx, r *Result, lfs *LockFlows, rule string, relevant fu
 	}
 	return n
 }
+
+// checkSelfDeadlock: for locks of which one instance exists per debugger/processor (the class is
+// its own identity), no call made while the lock may be held reaches — over the call graph,
+// dynamic calls included — a function that acquires the same lock class.
+func checkSelfDeadlock(c *Ctx, r *Result, lfs *LockFlows, rule string, relevant func(class string) bool) int {
+	n := 0
+	for _, fn := range c.ModFuncs() {
+		lf := lfs.Of(fn)
+		if lf == nil || len(lf.Ops) == 0 {
+			continue
+		}
+		key := c.FuncKey(fn)
+		ord := newOrdinals()
+		allInstrs(fn, func(in ssa.Instruction) {
+			ci, ok := in.(ssa.CallInstruction)
+			if !ok {
+				return
+			}
+			if _, isGo := in.(*ssa.Go); isGo {
+				return
+			}
+			if _, isDefer := in.(*ssa.Defer); isDefer {
+				return
+			}
+			if _, isLock := lockOpOf(in); isLock {
+				return
+			}
+			var held []string
+			for _, h := range lf.MayHoldClasses(in) {
+				if relevant(h) {
+					held = append(held, h)
+				}
+			}
+			if len(held) == 0 {
+				return
+			}
+			for _, callee := range c.Callees(ci) {
+				if !c.modFuncSet[callee] {
+					continue
+				}
+				acq := lfs.Acquires(callee)
+				for _, h := range held {
+					n++
+					if !acq[h] {
+						continue
+					}
+					site := ord.key(key, "self-deadlock", h+":"+calleeLabel(ci))
+					pos := c.Pos(c.InstrPos(in))
+					r.Instance(rule, site, pos, "finding", "callee may re-acquire "+h, true)
+					r.Report(Finding{Rule: rule, Site: site, Pos: pos,
+						Msg: fmt.Sprintf("%s calls %s while %s may be held, and that call can reach a function acquiring the same lock (through %s): the goroutine blocks on a lock it already holds and every later user of the lock hangs", key, calleeLabel(ci), h, c.FuncKey(callee))})
+					return
+				}
+			}
+		})
+	}
+	return n
+}
+
+func calleeLabel(ci ssa.CallInstruction) string {
+	if ci.Common().IsInvoke() {
+		return accessPath(ci.Common().Value) + "." + ci.Common().Method.Name() + "()"
+	}
+	if f := ci.Common().StaticCallee(); f != nil {
+		return f.Name() + "()"
+	}
+	return accessPath(ci.Common().Value) + "()"
+}
